@@ -81,7 +81,7 @@ Definition cget (S : Z) (c : list Z) (x y : Z) : Z := fget c (y * S + x).
 Section LoopSpec.
   Variables (S Ht : Z) (lo0 hi0 : Z).
   (* [owns v x y]: cell (x,y) is written (only) by iteration v, with value [val v c x y] computed from
-     the buffer c the iteration starts from, through cells no iteration of the loop writes *)
+     the buffer c the iteration starts from, through cells no other iteration of the loop writes *)
   Variables (owns : Z -> Z -> Z -> bool) (val : Z -> list Z -> Z -> Z -> Z) (body : Z -> list Z -> list Z).
   Hypothesis owns_unique : forall v v' x y, lo0 <= v < hi0 -> lo0 <= v' < hi0 ->
     owns v x y = true -> owns v' x y = true -> v = v'.
@@ -90,7 +90,7 @@ Section LoopSpec.
     length c = Z.to_nat (S * Ht) -> 0 <= x < S -> 0 <= y < Ht ->
     cget S (body v c) x y = if owns v x y then val v c x y else cget S c x y.
   Hypothesis val_frame : forall v c c' x y, lo0 <= v < hi0 -> 0 <= x < S -> 0 <= y < Ht -> owns v x y = true ->
-    (forall x' y', 0 <= x' < S -> 0 <= y' < Ht -> (forall u, lo0 <= u < hi0 -> owns u x' y' = false) ->
+    (forall x' y', 0 <= x' < S -> 0 <= y' < Ht -> (forall u, lo0 <= u < hi0 -> u <> v -> owns u x' y' = false) ->
                    cget S c x' y' = cget S c' x' y') ->
     val v c x y = val v c' x y.
 
@@ -410,6 +410,12 @@ Proof.
   rewrite (nth_indep _ [] (sel dpix)) by (rewrite map_length; lia). rewrite map_nth. reflexivity.
 Qed.
 
+Lemma nth_skipn_add {A} (d : A) : forall k (l : list A) i, nth i (skipn k l) d = nth (k + i) l d.
+Proof.
+  induction k as [|k IH]; intros l i; [reflexivity|]. destruct l as [|a l]; [destruct i; reflexivity|].
+  cbn [skipn Nat.add nth]. apply IH.
+Qed.
+
 Lemma nth_firstn_lt {A} (d : A) : forall k (l : list A) i, (i < k)%nat -> nth i (firstn k l) d = nth i l d.
 Proof.
   induction k as [|k IH]; intros l i H; [lia|]. destruct l as [|a l]; [reflexivity|]. cbn [firstn].
@@ -421,8 +427,6 @@ Qed.
     samples to the right for luma), the column to the left at x = X0-1 (the code keeps 4 columns) *)
 Section WorkBuf.
   Variables (S Ht n tr X0 Y0 : Z).
-  Hypothesis geo : 4 <= n /\ 4 <= X0 /\ 0 <= tr /\ X0 + n + tr <= S /\ 1 <= Y0 /\ Y0 + n <= Ht /\
-                   (tr = 0 \/ (tr = 4 /\ 12 <= n)).
 
   Definition put_cells (c : list Z) (x0 y : Z) (src : list Z) : list Z := copy_at c (y * S + x0) src.
   Definition row_cells (c : list Z) (x0 y : Z) (len : nat) : list Z :=
@@ -461,6 +465,9 @@ Section WorkBuf.
     rewrite map_nth, seq_nth by lia. unfold f. f_equal. lia.
   Qed.
 
+  Hypothesis geo : 4 <= n /\ 4 <= X0 /\ 0 <= tr /\ X0 + n + tr <= S /\ 1 <= Y0 /\ Y0 + n <= Ht /\
+                   (tr = 0 \/ (tr = 4 /\ 12 <= n)).
+
   (** "Rotate left samples from the previous block": for j := -1; j < n; j++ { copy(buf[base+j*bps-4 : base+j*bps], buf[base+j*bps+n-4 : base+j*bps+n]) } *)
   Definition rotate (c : list Z) : list Z :=
     for_range (-1) n (fun j c => put_cells c (X0 - 4) (Y0 + j) (row_cells c (X0 + n - 4) (Y0 + j) 4)) c.
@@ -484,11 +491,11 @@ Section WorkBuf.
       rewrite row_cells_length. change (Z.of_nat 4) with 4.
       zb; try lia; try reflexivity. rewrite fget_row_cells by lia. subst y1. f_equal. lia. }
     assert (Hf : forall v c c' x y, -1 <= v < n -> 0 <= x < S -> 0 <= y < Ht -> owns v x y = true ->
-      (forall x' y', 0 <= x' < S -> 0 <= y' < Ht -> (forall u, -1 <= u < n -> owns u x' y' = false) ->
+      (forall x' y', 0 <= x' < S -> 0 <= y' < Ht -> (forall u, -1 <= u < n -> u <> v -> owns u x' y' = false) ->
                      cget S c x' y' = cget S c' x' y') -> val v c x y = val v c' x y).
     { intros v c1 c2 x1 y1 Hv Hx1 Hy1 Ho Hsame. unfold val. unfold owns in Ho.
       rewrite !andb_true_iff, Z.eqb_eq, Z.leb_le, Z.ltb_lt in Ho.
-      apply Hsame; [lia|lia|]. intros u Hu'. unfold owns.
+      apply Hsame; [lia|lia|]. intros u Hu' _. unfold owns.
       replace (x1 + n <? X0) with false by (symmetry; apply Z.ltb_ge; lia). apply andb_false_r. }
     unfold rotate, for_range.
     destruct (loop_spec S Ht (-1) n owns val body Hu Hl Hs Hf (Z.to_nat (n - -1)) (-1) c x y ltac:(lia) ltac:(lia) Hlen Hx Hy)
@@ -589,10 +596,10 @@ Section WorkBuf.
       rewrite row_cells_length. change (Z.of_nat 4) with 4.
       zb; try lia; try reflexivity. rewrite fget_row_cells by lia. f_equal. lia. }
     assert (Hf : forall v c c' x y, 1 <= v < 4 -> 0 <= x < S -> 0 <= y < Ht -> owns v x y = true ->
-      (forall x' y', 0 <= x' < S -> 0 <= y' < Ht -> (forall u, 1 <= u < 4 -> owns u x' y' = false) ->
+      (forall x' y', 0 <= x' < S -> 0 <= y' < Ht -> (forall u, 1 <= u < 4 -> u <> v -> owns u x' y' = false) ->
                      cget S c x' y' = cget S c' x' y') -> val v c x y = val v c' x y).
     { intros v c1 c2 x1 y1 Hv Hx1 Hy1 Ho Hsame. unfold val. apply Hsame; [lia|lia|].
-      intros u Hu'. unfold owns. replace (Y0 - 1 =? Y0 - 1 + 4 * u) with false by (symmetry; apply Z.eqb_neq; lia).
+      intros u Hu' _. unfold owns. replace (Y0 - 1 =? Y0 - 1 + 4 * u) with false by (symmetry; apply Z.eqb_neq; lia).
       reflexivity. }
     unfold replicate, for_range.
     destruct (loop_spec S Ht 1 4 owns val body Hu Hl Hs Hf (Z.to_nat (4 - 1)) 1 c x y ltac:(lia) ltac:(lia) Hlen Hx Hy)
@@ -1002,3 +1009,189 @@ Proof.
   split; [intros _ Hy0 i Hi; replace (mbx + 1 - 1) with mbx by lia; apply B; assumption|].
   split; [exact C|]. split; [intros; lia|]. split; [intros; lia|exact D].
 Qed.
+
+(** * doFilter's horizontal passes over the output cache: "for j := 0; j < n; j++ { off := base + j*bps;
+    ... p[off-4] .. p[off+3] ... }" with base = mbY*n*stride + mbX*n (macroblock edge) or base + 4k (inner
+    edges), as a loop over the flat buffer; [f] is the 8-sample edge function of the grid model
+    (Vp8Filter.apply_win applies it to the window of a row) *)
+Section FilterPass.
+  Variables (S Ht : Z) (f : list Z -> list Z).
+  Hypothesis f_len : forall l, length l = 8%nat -> length (f l) = 8%nat.
+
+  Definition hpass (xe y0 n : Z) (c : list Z) : list Z :=
+    for_range 0 n (fun j c => put_cells S c (xe - 4) (y0 + j) (f (row_cells S c (xe - 4) (y0 + j) 8))) c.
+
+  Lemma hpass_spec xe y0 n c x y : 4 <= xe -> xe + 4 <= S -> 0 <= y0 -> y0 + n <= Ht -> 0 <= n ->
+    length c = Z.to_nat (S * Ht) -> 0 <= x < S -> 0 <= y < Ht ->
+    length (hpass xe y0 n c) = length c /\
+    cget S (hpass xe y0 n c) x y =
+      if (y0 <=? y) && (y <? y0 + n) && (xe - 4 <=? x) && (x <? xe + 4)
+      then fget (f (row_cells S c (xe - 4) y 8)) (x - (xe - 4)) else cget S c x y.
+  Proof.
+    intros Hxe Hxe2 Hy0 Hy0n Hn Hlen Hx Hy.
+    set (owns := fun j x y : Z => (y =? y0 + j) && (xe - 4 <=? x) && (x <? xe + 4)).
+    set (val := fun (j : Z) (c : list Z) (x y : Z) => fget (f (row_cells S c (xe - 4) y 8)) (x - (xe - 4))).
+    set (body := fun j c => put_cells S c (xe - 4) (y0 + j) (f (row_cells S c (xe - 4) (y0 + j) 8))).
+    assert (Hu : forall v v' x y, 0 <= v < n -> 0 <= v' < n -> owns v x y = true -> owns v' x y = true -> v = v').
+    { unfold owns. intros v v' x1 y1 _ _ H1 H2. rewrite !andb_true_iff, Z.eqb_eq in H1, H2. lia. }
+    assert (Hl : forall v c, length (body v c) = length c) by (intros; apply put_cells_length).
+    assert (Hf8 : forall c x0 y1, length (f (row_cells S c x0 y1 8)) = 8%nat) by (intros; apply f_len, row_cells_length).
+    assert (Hs : forall v c x y, 0 <= v < n -> length c = Z.to_nat (S * Ht) -> 0 <= x < S -> 0 <= y < Ht ->
+                 cget S (body v c) x y = if owns v x y then val v c x y else cget S c x y).
+    { intros j c1 x1 y1 Hj Hl1 Hx1 Hy1. unfold body, owns, val.
+      rewrite (put_cells_spec S Ht) by (rewrite ?Hf8; try assumption; lia).
+      rewrite Hf8. change (Z.of_nat 8) with 8. replace (xe - 4 + 8) with (xe + 4) by lia.
+      destruct (Z.eqb_spec y1 (y0 + j)) as [->|]; reflexivity. }
+    assert (Hfr : forall v c c' x y, 0 <= v < n -> 0 <= x < S -> 0 <= y < Ht -> owns v x y = true ->
+      (forall x' y', 0 <= x' < S -> 0 <= y' < Ht -> (forall u, 0 <= u < n -> u <> v -> owns u x' y' = false) ->
+                     cget S c x' y' = cget S c' x' y') -> val v c x y = val v c' x y).
+    { intros v c1 c2 x1 y1 Hv Hx1 Hy1 Ho Hsame. unfold val. unfold owns in Ho.
+      rewrite !andb_true_iff, Z.eqb_eq in Ho. destruct Ho as [[Ho1 _] _]. do 2 f_equal.
+      unfold row_cells. apply map_ext_in. intros k Hk. apply in_seq in Hk.
+      apply Hsame; [lia|lia|]. intros u Hu' Hne. unfold owns.
+      replace (y1 =? y0 + u) with false by (symmetry; apply Z.eqb_neq; lia). reflexivity. }
+    unfold hpass, for_range. replace (n - 0) with n by lia.
+    destruct (loop_spec S Ht 0 n owns val body Hu Hl Hs Hfr (Z.to_nat n) 0 c x y ltac:(lia) ltac:(lia) Hlen Hx Hy)
+      as (L & A & B).
+    fold body. split; [exact L|].
+    destruct ((y0 <=? y) && (y <? y0 + n) && (xe - 4 <=? x) && (x <? xe + 4)) eqn:E.
+    - rewrite !andb_true_iff, !Z.leb_le, !Z.ltb_lt in E.
+      rewrite (A (y - y0)); [reflexivity|lia|]. unfold owns.
+      rewrite !andb_true_iff, Z.eqb_eq, Z.leb_le, Z.ltb_lt. lia.
+    - apply B. intros v Hv. unfold owns. destruct (Z.eqb_spec y (y0 + v)) as [->|]; [|reflexivity]. cbn [andb].
+      destruct ((xe - 4 <=? x) && (x <? xe + 4)) eqn:E2; [|reflexivity].
+      assert (Ea : (y0 <=? y0 + v) = true) by (apply Z.leb_le; lia).
+      assert (Eb : (y0 + v <? y0 + n) = true) by (apply Z.ltb_lt; lia).
+      rewrite <- andb_assoc, E2, Ea, Eb in E. discriminate E.
+  Qed.
+
+  (** the grid model's view: on every row of the band, any segment of the row that contains the
+      window is rewritten by apply_win at the window's position in the segment
+      (edge_h: segment = left block ++ current block, position n-4; inner_h: segment = current block,
+      positions 0, 4, 8) *)
+  Lemma nth_apply_win off (row : list Z) i : (off + 8 <= length row)%nat -> (i < length row)%nat ->
+    nth i (apply_win f off row) 0 =
+    if ((off <=? i) && (i <? off + 8))%nat then nth (i - off) (f (firstn 8 (skipn off row))) 0 else nth i row 0.
+  Proof.
+    intros H Hi. unfold apply_win.
+    assert (L8 : length (f (firstn 8 (skipn off row))) = 8%nat).
+    { apply f_len. rewrite firstn_length, skipn_length. lia. }
+    destruct (Nat.leb_spec off i) as [H1|H1]; cbn [andb].
+    - rewrite app_nth2 by (rewrite firstn_length; lia). rewrite firstn_length, Nat.min_l by lia.
+      destruct (Nat.ltb_spec i (off + 8)) as [H2|H2].
+      + apply app_nth1. lia.
+      + rewrite app_nth2 by lia. rewrite L8, nth_skipn_add. f_equal. lia.
+    - rewrite app_nth1 by (rewrite firstn_length; lia). apply nth_firstn_lt. lia.
+  Qed.
+
+  Theorem hpass_row xe y0 n c j xs len :
+    4 <= xe -> xe + 4 <= S -> 0 <= y0 -> y0 + n <= Ht -> length c = Z.to_nat (S * Ht) ->
+    0 <= j < n -> 0 <= xs -> xs <= xe - 4 -> xe + 4 <= xs + Z.of_nat len -> xs + Z.of_nat len <= S ->
+    row_cells S (hpass xe y0 n c) xs (y0 + j) len =
+    apply_win f (Z.to_nat (xe - 4 - xs)) (row_cells S c xs (y0 + j) len).
+  Proof.
+    intros Hxe Hxe2 Hy0 Hy0n Hlen Hj Hxs Hxs2 Hxl HxS.
+    assert (Lr : forall c', length (row_cells S c' xs (y0 + j) len) = len) by (intros; apply row_cells_length).
+    assert (Lw : length (apply_win f (Z.to_nat (xe - 4 - xs)) (row_cells S c xs (y0 + j) len)) = len).
+    { unfold apply_win. rewrite !app_length, firstn_length, skipn_length, Lr.
+      rewrite f_len by (rewrite firstn_length, skipn_length, Lr; lia). lia. }
+    apply nth_ext with (d := 0) (d' := 0); [rewrite Lr, Lw; reflexivity|].
+    intros i Hi. rewrite Lr in Hi.
+    rewrite nth_apply_win by (rewrite Lr; lia).
+    assert (Ek : forall c' x0 l m, (m < l)%nat -> nth m (row_cells S c' x0 (y0 + j) l) 0 = cget S c' (x0 + Z.of_nat m) (y0 + j)).
+    { intros c' x0 l m Hm. pose proof (fget_row_cells S c' x0 (y0 + j) l (Z.of_nat m) ltac:(lia)) as F.
+      unfold fget in F. rewrite Nat2Z.id in F. exact F. }
+    assert (Ei : forall c', nth i (row_cells S c' xs (y0 + j) len) 0 = cget S c' (xs + Z.of_nat i) (y0 + j))
+      by (intros c'; apply Ek; exact Hi).
+    rewrite !Ei.
+    rewrite (proj2 (hpass_spec xe y0 n c (xs + Z.of_nat i) (y0 + j) Hxe Hxe2 Hy0 Hy0n ltac:(lia) Hlen ltac:(lia) ltac:(lia))).
+    replace (y0 <=? y0 + j) with true by (symmetry; apply Z.leb_le; lia).
+    replace (y0 + j <? y0 + n) with true by (symmetry; apply Z.ltb_lt; lia). cbn [andb].
+    assert (Ewin : firstn 8 (skipn (Z.to_nat (xe - 4 - xs)) (row_cells S c xs (y0 + j) len)) = row_cells S c (xe - 4) (y0 + j) 8).
+    { apply nth_ext with (d := 0) (d' := 0).
+      - rewrite firstn_length, skipn_length, Lr, row_cells_length. lia.
+      - intros k Hk. rewrite firstn_length, skipn_length, Lr in Hk.
+        rewrite nth_firstn_lt by lia. rewrite nth_skipn_add.
+        rewrite !Ek by lia. f_equal. lia. }
+    rewrite Ewin.
+    destruct (Z.leb_spec (xe - 4) (xs + Z.of_nat i)) as [H1|H1];
+      destruct (Nat.leb_spec (Z.to_nat (xe - 4 - xs)) i) as [H1'|H1']; try lia; cbn [andb]; try reflexivity.
+    destruct (Z.ltb_spec (xs + Z.of_nat i) (xe + 4)) as [H2|H2];
+      destruct (Nat.ltb_spec i (Z.to_nat (xe - 4 - xs) + 8)) as [H2'|H2']; try lia; try reflexivity.
+    unfold fget. f_equal. lia.
+  Qed.
+End FilterPass.
+
+(** * the passes against the grid model's edge functions (Vp8Filter.edge_h, inner_h) *)
+Section FilterGrid.
+  Variables (S Ht : Z) (f : list Z -> list Z).
+  Hypothesis f_len : forall l, length l = 8%nat -> length (f l) = 8%nat.
+
+  (** the n x n block of the buffer at cell (x0, y0), as the grid model's list of rows *)
+  Definition block_at (c : list Z) (x0 y0 : Z) (n : nat) : list (list Z) :=
+    map (fun j => row_cells S c x0 (y0 + Z.of_nat j) n) (seq 0 n).
+
+  Lemma map_seq_shift {A} : forall b a (g : nat -> A), map g (seq a b) = map (fun k => g (a + k)%nat) (seq 0 b).
+  Proof.
+    induction b as [|b IH]; intros a g; [reflexivity|]. cbn [seq map]. rewrite Nat.add_0_r. f_equal.
+    rewrite (IH (Datatypes.S a) g), (IH 1%nat (fun k => g (a + k)%nat)). apply map_ext. intros k. f_equal. lia.
+  Qed.
+
+  Lemma row_cells_app c x0 y a b :
+    row_cells S c x0 y (a + b) = row_cells S c x0 y a ++ row_cells S c (x0 + Z.of_nat a) y b.
+  Proof.
+    unfold row_cells. rewrite seq_app, map_app. f_equal. cbn [Nat.add]. rewrite map_seq_shift.
+    apply map_ext. intros k. f_equal. lia.
+  Qed.
+
+  Lemma combine_map_same {A B C} (g : A -> B) (h : A -> C) : forall l, combine (map g l) (map h l) = map (fun x => (g x, h x)) l.
+  Proof. induction l as [|x l IH]; [reflexivity|]. cbn [map combine]. f_equal. exact IH. Qed.
+
+  (** macroblock edge: filterLoop26At / simpleHFilter16At at base = mbY*n*stride + mbX*n *)
+  Theorem hpass_edge_h x0 y0 (n : nat) c :
+    (4 <= n)%nat -> Z.of_nat n <= x0 -> x0 + Z.of_nat n <= S -> 0 <= y0 -> y0 + Z.of_nat n <= Ht ->
+    length c = Z.to_nat (S * Ht) ->
+    let c' := hpass S f x0 y0 (Z.of_nat n) c in
+    (block_at c' (x0 - Z.of_nat n) y0 n, block_at c' x0 y0 n) =
+    edge_h n f (block_at c (x0 - Z.of_nat n) y0 n) (block_at c x0 y0 n).
+  Proof.
+    intros Hn Hx0 Hx0n Hy0 Hy0n Hlen. cbv zeta. unfold edge_h, block_at.
+    rewrite combine_map_same, !map_map.
+    assert (Hrow : forall j, In j (seq 0 n) ->
+              row_cells S (hpass S f x0 y0 (Z.of_nat n) c) (x0 - Z.of_nat n) (y0 + Z.of_nat j) n ++
+              row_cells S (hpass S f x0 y0 (Z.of_nat n) c) x0 (y0 + Z.of_nat j) n =
+              apply_win f (n - 4) (row_cells S c (x0 - Z.of_nat n) (y0 + Z.of_nat j) n ++ row_cells S c x0 (y0 + Z.of_nat j) n)).
+    { intros j Hj. apply in_seq in Hj.
+      pose proof (hpass_row S Ht f f_len x0 y0 (Z.of_nat n) c (Z.of_nat j) (x0 - Z.of_nat n) (n + n)
+                    ltac:(lia) ltac:(lia) Hy0 Hy0n Hlen ltac:(lia) ltac:(lia) ltac:(lia) ltac:(lia) ltac:(lia)) as E.
+      rewrite !row_cells_app in E. replace (x0 - Z.of_nat n + Z.of_nat n) with x0 in E by lia.
+      replace (Z.to_nat (x0 - 4 - (x0 - Z.of_nat n))) with (n - 4)%nat in E by lia. exact E. }
+    f_equal; apply map_ext_in; intros j Hj; rewrite <- (Hrow j Hj).
+    - rewrite firstn_app, row_cells_length, Nat.sub_diag, firstn_all2 by (rewrite row_cells_length; lia).
+      cbn [firstn]. rewrite app_nil_r. reflexivity.
+    - rewrite skipn_app, row_cells_length, Nat.sub_diag, skipn_all2 by (rewrite row_cells_length; lia). reflexivity.
+  Qed.
+
+  (** inner edges: hFilter16iAt / hFilter8iAt / simpleHFilter16iAt: "for k := 1; k <= 3; k++ { filterLoop24HAt(p, base+k*4, ...) }"
+      (windows starting 0, 4, 8 samples into the block; chroma: one window at 0) *)
+  Definition hpasses (x0 y0 : Z) (n : nat) (offs : list nat) (c : list Z) : list Z :=
+    fold_left (fun c o => hpass S f (x0 + Z.of_nat o + 4) y0 (Z.of_nat n) c) offs c.
+
+  Theorem hpasses_inner_h x0 y0 (n : nat) : 0 <= x0 -> x0 + Z.of_nat n <= S -> 0 <= y0 -> y0 + Z.of_nat n <= Ht ->
+    forall offs c, Forall (fun o => (o + 8 <= n)%nat) offs -> length c = Z.to_nat (S * Ht) ->
+    block_at (hpasses x0 y0 n offs c) x0 y0 n = inner_h f offs (block_at c x0 y0 n).
+  Proof.
+    intros Hx0 Hx0n Hy0 Hy0n. induction offs as [|o tl IH]; intros c Ho Hlen.
+    - unfold inner_h. cbn [hpasses fold_left apply_wins]. rewrite map_id. reflexivity.
+    - pose proof (Forall_inv Ho) as Ho1. cbv beta in Ho1.
+      assert (L1 : length (hpass S f (x0 + Z.of_nat o + 4) y0 (Z.of_nat n) c) = Z.to_nat (S * Ht)).
+      { rewrite (proj1 (hpass_spec S Ht f f_len (x0 + Z.of_nat o + 4) y0 (Z.of_nat n) c 0 0
+                          ltac:(lia) ltac:(lia) Hy0 Hy0n ltac:(lia) Hlen ltac:(lia) ltac:(lia))). exact Hlen. }
+      cbn [hpasses fold_left]. fold (hpasses x0 y0 n tl (hpass S f (x0 + Z.of_nat o + 4) y0 (Z.of_nat n) c)).
+      rewrite (IH _ (Forall_inv_tail Ho) L1). unfold inner_h, block_at. rewrite !map_map.
+      apply map_ext_in. intros j Hj. apply in_seq in Hj. cbn [apply_wins]. f_equal.
+      pose proof (hpass_row S Ht f f_len (x0 + Z.of_nat o + 4) y0 (Z.of_nat n) c (Z.of_nat j) x0 n
+                    ltac:(lia) ltac:(lia) Hy0 Hy0n Hlen ltac:(lia) Hx0 ltac:(lia) ltac:(lia) ltac:(lia)) as E.
+      replace (Z.to_nat (x0 + Z.of_nat o + 4 - 4 - x0)) with o in E by lia. exact E.
+  Qed.
+End FilterGrid.
